@@ -42,8 +42,12 @@ class PyprojectWriter(DependencyWriter):
         )
 
         if not dry_run:
-            with open(self.path, "w", encoding="utf-8") as f:
-                tomlkit.dump(pyproject, f)
+            try:
+                with open(self.path, "w", encoding="utf-8") as f:
+                    tomlkit.dump(pyproject, f)
+            except Exception:
+                logger.debug("Unable to write pyproject.toml file.")
+                return None
 
         changes = self.build_changes(
             dependencies, added_line_nums_strategy, added_line_nums
